@@ -171,6 +171,26 @@ def run(report):
         report.absorb(part)
     report.extra["sampled_family"] = {"examples_per_shard": per, "shards": n_sh,
                                       "sizes": "5..%d" % (10 if quick else 14)}
+    # host dimension: the same family (smaller bound) converted and run under the other hosts
+    from .. import hosts
+    others = hosts.available_other_hosts()
+    hb = 3 if quick else 4
+    cases = []
+    for placement in cf.PLACEMENTS:
+        for n in range(1, hb + 1):
+            sks = cf.enumerate_skeletons(n, cf.placement_in_func(placement))
+            for idx, sk in enumerate(sks):
+                cases.append((cf.program(sk, placement), [_cfgs_for(idx)[idx % 4]]))
+    hitems = []
+    for h in others:
+        for sched in (0, 2, 4):
+            sub = cases[sched // 2::3]
+            hitems.append((h, sub, {"check_globals": False, "check_stdout": False, "sched": sched},
+                           "control-flow trace differs"))
+    for part in env.pmap(hosts.host_shard, hitems):
+        report.absorb(part)
+    report.extra["other_hosts"] = others
+    report.extra["host_family"] = {"bound_n": hb, "cases_per_host": len(cases)}
     report.notes.append("exhaustive:true refers to the enumerated family up to bound_n only; "
                         "larger skeletons are sampled")
     report.assumptions += [
